@@ -187,6 +187,28 @@ def run_records(case):
         if built.to_wire() != w0 or hash(built) != h0 or built.to_text() != t0 or built != a:
             raise Violation("immutable", f"{tname}: a record built with {k}=<{type(mine).__name__}> changed when the caller mutated that {type(mine).__name__} afterwards", f"ctor-alias:{tname}.{k}")
         classes.append("ctor-alias-checked")
+    # 1c. equality is about class, type and canonical encoding, not about the Python class that
+    # carries them: the same canonical octets held by a GenericRdata are the same record
+    try:
+        canon = a.to_digestable()
+    except dns.name.NeedAbsoluteNameOrOrigin:
+        canon = None
+    if canon is not None:
+        import dns.rdataset
+
+        g = dns.rdata.GenericRdata(rdclass, rdtype, canon)
+        if type(g) is not type(a):
+            if not (a == g) or not (g == a) or (a != g) or (g != a):
+                raise Violation("equality", f"{tname}: a record and a GenericRdata holding its canonical encoding {canon.hex()} compare unequal", "typed-vs-generic:" + tname)
+            if hash(a) != hash(g):
+                raise Violation("equality", f"{tname}: equal records (typed / generic) hash differently", "typed-vs-generic-hash:" + tname)
+            if tname not in ("RRSIG", "SIG"):  # a GenericRdata cannot tell which type it covers
+                s1 = dns.rdataset.Rdataset(rdclass, rdtype)
+                s1.add(a, 300)
+                s1.add(g, 300)
+                if len(s1) != 1:
+                    raise Violation("equality", f"{tname}: a record set keeps a record and its generic twin as two members", "typed-vs-generic-set:" + tname)
+            classes.append("typed-vs-generic")
     # 2. equality <=> same reference canonical encoding of the re-encoded (normalised) wire
     if tname != "CH_A":
         ca = C.canonical_rdata(rdtype, a.to_wire())
@@ -716,7 +738,7 @@ def set_cases(draw):
 def parts(tier):
     return [
         Part("records", run_records, strategy=record_cases(), n={"quick": 14000, "thorough": 400000},
-             require={"equal-differ-in-case": 300, "relative": 100, "slots-walked": 5000, "ctor-alias-checked": 3000, "relative-vs-absolute-twin": 50},
+             require={"equal-differ-in-case": 300, "relative": 100, "slots-walked": 5000, "ctor-alias-checked": 3000, "typed-vs-generic": 5000, "relative-vs-absolute-twin": 50},
              shards={"quick": 8, "thorough": 16}),
         Part("sets", run_sets, strategy=set_cases(), n={"quick": 6000, "thorough": 200000},
              require={"dup": 500, "alias": 500, "intruder": 300, "singleton": 100,
